@@ -40,22 +40,30 @@ FakeFS.NOFAULT = ('stat', 'lexists', 'unlink', 'after')       # fdopen (wrapping
 
 
 class BodyError(Exception):
-    pass
+    """raised by the with-block body; its instances are FALSY (an aggregate-of-errors exception with an empty list is):
+    whether the body failed is a matter of the exception TYPE being present, not of the instance's truth value"""
+    def __bool__(self):
+        return False
+
+    def __len__(self):
+        return 0
 
 
-def _run(fs, kw, nwrites, body_exc, payload):
-    """one atomic save; returns (exception or None)"""
+def _run(fs, kw, nwrites, body_exc, payload, saver=None):
+    """one atomic save (through `saver`, an AtomicSaver that may be re-entered, or a fresh atomic_save); returns (exception or None)"""
     undo = fakeos.install(fu, fs)
     try:
         try:
-            with fu.atomic_save(DEST, **kw) as f:
+            with (saver if saver is not None else fu.atomic_save(DEST, **kw)) as f:
                 if body_exc == 1:
                     raise BodyError('before writes')
                 for i in range(nwrites):
                     f.write(payload[i])
                 if body_exc == 2:
                     raise BodyError('after writes')
-        except (OSError, BodyError) as e:
+                if body_exc == 3:
+                    f.close()            # the body closes the part file itself: finalisation then fails with ValueError (not an OSError)
+        except (OSError, BodyError, ValueError) as e:
             return e
         return None
     finally:
@@ -88,7 +96,12 @@ def _body(fault1, fault2, overwrite, overwrite_part, rm_part, text_mode, perm_i,
         kw['file_perms'] = req_perms
     dest_before = fs.names.get(DEST)
     before = (dest_before.kernel, dest_before.mode) if dest_before is not None else None
-    exc = _run(fs, kw, nwrites, body_exc, payload)
+    undo0 = fakeos.install(fu, fs)
+    try:
+        saver = fu.AtomicSaver(DEST, **kw)          # ONE saver object: the retry below re-enters it
+    finally:
+        undo0()
+    exc = _run(fs, kw, nwrites, body_exc, payload, saver=saver)
     raced = racer is not None and bool(created)
     dest = fs.names.get(DEST)
     tag = 'faults=%r exc=%r log=%r' % (fs.faulted, type(exc).__name__ if exc else None, fs.log)
@@ -150,12 +163,16 @@ def _body(fault1, fault2, overwrite, overwrite_part, rm_part, text_mode, perm_i,
         fs.fault_at = ()
         fs.faulted = []
         fs.racer = None               # ... and without a competitor appearing during the retry (that would be a legitimate refusal)
-        e2 = _run(fs, kw, nwrites, 0, payload)
+        e2 = _run(fs, kw, nwrites, 0, payload, saver=saver)
         if e2 is not None:
             return fail('retry_failed', 'retry raised %r after %s' % (e2, tag))
         d2 = fs.names.get(DEST)
         if d2 is None or d2.kernel != new or PART in fs.names:
             return fail('retry_wrong_result', tag)
+        # the permissions rule holds for the retry through the same saver object too
+        exp2 = req_perms if req_perms is not None else (before[1] if before is not None else (None if raced else 0o666 & ~UMASKS[umask_i]))
+        if exp2 is not None and d2.mode != exp2:
+            return fail('retry_permissions', 'mode %o expected %o; %s' % (d2.mode, exp2, tag))
     kind = 'refused_dest_exists' if (before is not None and not overwrite and not fs.faulted and not body_exc) else \
         ('failed_by_fault' if fs.faulted else ('body_raised' if body_exc else 'refused_other'))
     return done(True, kind=kind, faults=len(faults))
@@ -164,7 +181,7 @@ def _body(fault1, fault2, overwrite, overwrite_part, rm_part, text_mode, perm_i,
 def fault_law(fault1: int, fault2: int, overwrite: bool, rm_part: bool, dest_state: int, body_exc: int, nwrites: int,
               text_mode: bool) -> bool:
     """
-    pre: -1 <= fault1 <= 17 and -1 <= fault2 <= 17 and 0 <= dest_state <= 1 and 0 <= body_exc <= 2 and 0 <= nwrites <= 3
+    pre: -1 <= fault1 <= 17 and -1 <= fault2 <= 17 and 0 <= dest_state <= 1 and 0 <= body_exc <= 3 and 0 <= nwrites <= 3
     post: _
     """
     two = pinval('two', 0)
@@ -178,7 +195,7 @@ def fault_law(fault1: int, fault2: int, overwrite: bool, rm_part: bool, dest_sta
     overwrite = True if overwrite else False
     rm_part = True if rm_part else False
     dest_state = cz(dest_state, 0, 1)
-    body_exc = cz(body_exc, 0, 2) if not two else 0
+    body_exc = cz(body_exc, 0, 3) if not two else 0
     nwrites = cz(nwrites, 0, pinval('wmax', 2))
     text_mode = pin('text', 1 if text_mode else 0, 0, 1) == 1
     with notrace():
